@@ -12,9 +12,9 @@ use fuel_core::fuel_core_graphql_api::{
         assets::AssetsInfo,
         balances::{CoinBalances, CoinBalancesKey, MessageBalance, MessageBalances},
         blocks::FuelBlockIdsToHeights,
-        coins::{CoinsToSpendIndex, OwnedCoins},
+        coins::{owner_coin_id_key, CoinsToSpendIndex, OwnedCoinKey, OwnedCoins},
         contracts::ContractsInfo,
-        messages::{OwnedMessageIds, SpentMessages},
+        messages::{OwnedMessageIds, OwnedMessageKey, SpentMessages},
         old::{OldFuelBlockConsensus, OldFuelBlocks, OldTransactions},
         relayed_transactions::RelayedTransactionStatuses,
     },
@@ -50,6 +50,75 @@ pub struct MockTx {
     pub idx_removed: Option<CoinsToSpendIndexKey>,
     pub idx_inserts: u32,
     pub idx_removes: u32,
+    /// owned-coin / owned-message / spent-message tables: what was written
+    pub owned_coin_inserted: Option<OwnedCoinKey>,
+    pub owned_coin_removed: Option<OwnedCoinKey>,
+    pub owned_msg_inserted: Option<OwnedMessageKey>,
+    pub owned_msg_removed: Option<OwnedMessageKey>,
+    pub spent_msg_inserted: Option<fuel_core_types::fuel_types::Nonce>,
+    pub owned_writes: u32,
+}
+
+impl StorageInspect<OwnedCoins> for MockTx {
+    type Error = StorageError;
+    fn get(&self, _k: &OwnedCoinKey) -> StorageResult<Option<Cow<'_, ()>>> {
+        Ok(None)
+    }
+    fn contains_key(&self, _k: &OwnedCoinKey) -> StorageResult<bool> {
+        Ok(false)
+    }
+}
+impl StorageMutate<OwnedCoins> for MockTx {
+    fn replace(&mut self, k: &OwnedCoinKey, _v: &()) -> StorageResult<Option<()>> {
+        self.owned_writes += 1;
+        self.owned_coin_inserted = Some(*k);
+        Ok(None)
+    }
+    fn take(&mut self, k: &OwnedCoinKey) -> StorageResult<Option<()>> {
+        self.owned_writes += 1;
+        self.owned_coin_removed = Some(*k);
+        Ok(Some(()))
+    }
+}
+impl StorageInspect<OwnedMessageIds> for MockTx {
+    type Error = StorageError;
+    fn get(&self, _k: &OwnedMessageKey) -> StorageResult<Option<Cow<'_, ()>>> {
+        Ok(None)
+    }
+    fn contains_key(&self, _k: &OwnedMessageKey) -> StorageResult<bool> {
+        Ok(false)
+    }
+}
+impl StorageMutate<OwnedMessageIds> for MockTx {
+    fn replace(&mut self, k: &OwnedMessageKey, _v: &()) -> StorageResult<Option<()>> {
+        self.owned_writes += 1;
+        self.owned_msg_inserted = Some(*k);
+        Ok(None)
+    }
+    fn take(&mut self, k: &OwnedMessageKey) -> StorageResult<Option<()>> {
+        self.owned_writes += 1;
+        self.owned_msg_removed = Some(*k);
+        Ok(Some(()))
+    }
+}
+impl StorageInspect<SpentMessages> for MockTx {
+    type Error = StorageError;
+    fn get(&self, _k: &fuel_core_types::fuel_types::Nonce) -> StorageResult<Option<Cow<'_, ()>>> {
+        Ok(None)
+    }
+    fn contains_key(&self, _k: &fuel_core_types::fuel_types::Nonce) -> StorageResult<bool> {
+        Ok(false)
+    }
+}
+impl StorageMutate<SpentMessages> for MockTx {
+    fn replace(&mut self, k: &fuel_core_types::fuel_types::Nonce, _v: &()) -> StorageResult<Option<()>> {
+        self.spent_msg_inserted = Some(*k);
+        Ok(None)
+    }
+    fn take(&mut self, _k: &fuel_core_types::fuel_types::Nonce) -> StorageResult<Option<()>> {
+        self.other += 1;
+        Ok(None)
+    }
 }
 
 impl StorageInspect<CoinsToSpendIndex> for MockTx {
@@ -149,8 +218,8 @@ macro_rules! untouched_table {
         }
     )*};
 }
-untouched_table!(OwnedMessageIds, OwnedCoins, FuelBlockIdsToHeights, ContractsInfo, OldFuelBlocks, OldFuelBlockConsensus,
-    OldTransactions, SpentMessages, RelayedTransactionStatuses, AssetsInfo);
+untouched_table!(FuelBlockIdsToHeights, ContractsInfo, OldFuelBlocks, OldFuelBlockConsensus,
+    OldTransactions, RelayedTransactionStatuses, AssetsInfo);
 
 impl OffChainDatabaseTransaction for MockTx {
     fn record_tx_id_owner(&mut self, _o: &Address, _h: BlockHeight, _i: u16, _t: &Bytes32) -> StorageResult<()> {
@@ -202,6 +271,7 @@ pub fn coin_step<S: Src>(s: &mut S) {
         msg_key: None, msg_val: None, msg_reads: 0, msg_writes: 0,
         stored_coin_key: stored_key, stored_msg_key: addr(0), other: 0,
         idx_present: None, idx_inserted: None, idx_removed: None, idx_inserts: 0, idx_removes: 0,
+        owned_coin_inserted: None, owned_coin_removed: None, owned_msg_inserted: None, owned_msg_removed: None, spent_msg_inserted: None, owned_writes: 0,
     };
     let coin = Coin { utxo_id: Default::default(), owner, amount, asset_id, tx_pointer: Default::default() };
     let event = if created { Event::CoinCreated(coin) } else { Event::CoinConsumed(coin) };
@@ -244,6 +314,7 @@ pub fn message_step<S: Src>(s: &mut S) {
         msg_key: None, msg_val: if has_stored { Some(stored.clone()) } else { None }, msg_reads: 0, msg_writes: 0,
         stored_coin_key: CoinBalancesKey::new(&addr(0), &asset(0)), stored_msg_key: stored_owner, other: 0,
         idx_present: None, idx_inserted: None, idx_removed: None, idx_inserts: 0, idx_removes: 0,
+        owned_coin_inserted: None, owned_coin_removed: None, owned_msg_inserted: None, owned_msg_removed: None, spent_msg_inserted: None, owned_writes: 0,
     };
     let mut data = Vec::with_capacity(1);
     if retryable {
@@ -321,6 +392,7 @@ pub fn to_spend_step<S: Src>(s: &mut S) {
         stored_coin_key: CoinBalancesKey::new(&addr(0), &asset(0)), stored_msg_key: addr(0), other: 0,
         idx_present: if already_present { Some(expect_key.clone()) } else { None },
         idx_inserted: None, idx_removed: None, idx_inserts: 0, idx_removes: 0,
+        owned_coin_inserted: None, owned_coin_removed: None, owned_msg_inserted: None, owned_msg_removed: None, spent_msg_inserted: None, owned_writes: 0,
     };
     let r = coins_to_spend_update(&event, &mut tx, enabled, &base_asset);
     if !enabled {
